@@ -148,6 +148,16 @@ type docMatchTree struct {
 	docID     uint32
 }
 
+// fresh returns a docMatchTree that shares the immutable parts of t but has
+// its own iteration state.
+func (t *docMatchTree) fresh() *docMatchTree {
+	return &docMatchTree{
+		numDocs:   t.numDocs,
+		predicate: t.predicate,
+		reason:    t.reason,
+	}
+}
+
 type bruteForceMatchTree struct {
 	// mutable
 	firstDone bool
@@ -1084,7 +1094,10 @@ func (d *indexData) newMatchTree(q query.Q, opt matchTreeOpt) (matchTree, error)
 		checksum := queryMetaChecksum(s.Field, s.Value)
 		cacheKeyField := "Meta"
 		if cached, ok := d.docMatchTreeCache.Get(cacheKeyField, checksum); ok {
-			return cached, nil
+			// The cached node is shared by all searches on this shard. Hand
+			// out a fresh node so its iteration state (firstDone, docID) is
+			// private to this search.
+			return cached.fresh(), nil
 		}
 
 		reposWant := make([]bool, len(d.repoMetaData))
@@ -1108,7 +1121,7 @@ func (d *indexData) newMatchTree(q query.Q, opt matchTreeOpt) (matchTree, error)
 			},
 		}
 		d.docMatchTreeCache.Add(cacheKeyField, checksum, mt)
-		return mt, nil
+		return mt.fresh(), nil
 
 	case *query.Substring:
 		return d.newSubstringMatchTree(s)
